@@ -145,14 +145,26 @@ fn run_any_unit(prop: &str, phase: &str, unit: u64, seed: u64, tier: Tier, ctx: 
 }
 
 /// Worker: units with index = w mod n_workers of every phase.
-pub fn cmd_worker(prop: &str, tier: Tier, seed: u64, w: u64, n: u64) -> i32 {
+pub fn cmd_worker(prop: &str, tier: Tier, seed: u64, w: u64, n: u64, resume_after: Option<(String, u64)>) -> i32 {
     install_panic_hook();
     let mut ctx = Ctx::new();
     let mut found: Vec<Found> = Vec::new();
+    let mut n_found = 0usize;
     let out = std::io::stdout();
+    let mut skipping = resume_after.is_some();
     for (phase, units) in phase_list(prop, tier) {
         let mut u = w;
         while u < units {
+            if skipping {
+                // resume after the unit that killed the previous incarnation of this worker
+                if let Some((ph, uu)) = &resume_after {
+                    if *ph == phase && *uu == u {
+                        skipping = false;
+                    }
+                }
+                u += n;
+                continue;
+            }
             {
                 let mut o = out.lock();
                 let _ = writeln!(o, "U {} {}", phase, u);
@@ -172,8 +184,15 @@ pub fn cmd_worker(prop: &str, tier: Tier, seed: u64, w: u64, n: u64) -> i32 {
                 });
             }
             ctx.fails.clear();
-            if found.len() < 40 {
-                found.extend(ctl.found.drain(..));
+            found.extend(ctl.found.drain(..));
+            // found items go out at once, so that they survive a later death of this process
+            for f in found.drain(..) {
+                if n_found < 40 {
+                    n_found += 1;
+                    let mut o = out.lock();
+                    let _ = writeln!(o, "F {}", serde_json::to_string(&f).unwrap());
+                    let _ = o.flush();
+                }
             }
             u += n;
         }
@@ -185,7 +204,7 @@ pub fn cmd_worker(prop: &str, tier: Tier, seed: u64, w: u64, n: u64) -> i32 {
         reach: ctx.stats.reach,
         distinct: ctx.stats.distinct.into_iter().collect(),
         samples: ctx.stats.samples,
-        found,
+        found: vec![],
     };
     let mut o = out.lock();
     let _ = writeln!(o, "R {}", serde_json::to_string(&rep).unwrap());
@@ -225,12 +244,14 @@ fn spawn_self(args: &[String]) -> std::io::Result<std::process::Child> {
     if std::env::var("SHPSIM_NO_ULIMIT").is_ok() {
         script = String::from("exec \"$0\" \"$@\"");
     }
-    Command::new("sh").arg("-c").arg(script).arg(self_exe()).args(args).stdin(Stdio::null()).stdout(Stdio::piped()).stderr(Stdio::inherit()).spawn()
+    let stderr = if std::env::var("SHPSIM_DEBUG").is_ok() { Stdio::inherit() } else { Stdio::null() };
+    Command::new("sh").arg("-c").arg(script).arg(self_exe()).args(args).env("RUST_BACKTRACE", "0").stdin(Stdio::null()).stdout(Stdio::piped()).stderr(stderr).spawn()
 }
 
 enum Msg {
     Unit(usize, String, u64),
     Report(usize, Box<Report>),
+    Found(Box<Found>),
     Closed(usize),
 }
 
@@ -283,6 +304,7 @@ pub struct CheckOutcome {
 }
 
 pub fn cmd_check(prop: &str, tier: Tier, seed: u64, workers: u64) -> i32 {
+    install_panic_hook();
     let t0 = Instant::now();
     if !checks::CLAIMED.contains(&prop) {
         eprintln!("harness error: property {} is not claimed by this framework", prop);
@@ -295,18 +317,20 @@ pub fn cmd_check(prop: &str, tier: Tier, seed: u64, workers: u64) -> i32 {
     println!("phases: {}", plist.iter().map(|(n, u)| format!("{}={}", n, u)).collect::<Vec<_>>().join(" "));
 
     let (tx, rx) = mpsc::channel::<Msg>();
-    let mut children = Vec::new();
-    for w in 0..workers {
-        let args: Vec<String> = vec!["worker".into(), prop.into(), tier.name().into(), seed.to_string(), w.to_string(), workers.to_string()];
+    let spawn_worker = |w: u64, resume: Option<&(String, u64)>, tx: mpsc::Sender<Msg>| -> Option<std::process::Child> {
+        let mut args: Vec<String> = vec!["worker".into(), prop.into(), tier.name().into(), seed.to_string(), w.to_string(), workers.to_string()];
+        if let Some((ph, u)) = resume {
+            args.push(ph.clone());
+            args.push(u.to_string());
+        }
         let mut child = match spawn_self(&args) {
             Ok(c) => c,
             Err(e) => {
                 eprintln!("harness error: cannot spawn worker: {}", e);
-                return 2;
+                return None;
             }
         };
         let stdout = child.stdout.take().unwrap();
-        let tx = tx.clone();
         let wi = w as usize;
         std::thread::spawn(move || {
             for line in BufReader::new(stdout).lines().map_while(Result::ok) {
@@ -315,6 +339,13 @@ pub fn cmd_check(prop: &str, tier: Tier, seed: u64, workers: u64) -> i32 {
                     let ph = it.next().unwrap_or("").to_string();
                     let u = it.next().and_then(|x| x.parse().ok()).unwrap_or(0);
                     let _ = tx.send(Msg::Unit(wi, ph, u));
+                } else if let Some(rest) = line.strip_prefix("F ") {
+                    match serde_json::from_str::<Found>(rest) {
+                        Ok(f) => {
+                            let _ = tx.send(Msg::Found(Box::new(f)));
+                        }
+                        Err(e) => eprintln!("harness error: bad worker finding: {}", e),
+                    }
                 } else if let Some(rest) = line.strip_prefix("R ") {
                     match serde_json::from_str::<Report>(rest) {
                         Ok(r) => {
@@ -326,56 +357,81 @@ pub fn cmd_check(prop: &str, tier: Tier, seed: u64, workers: u64) -> i32 {
             }
             let _ = tx.send(Msg::Closed(wi));
         });
-        children.push(child);
-    }
-    drop(tx);
-
+        Some(child)
+    };
     let n = workers as usize;
+    let mut children: Vec<Option<std::process::Child>> = Vec::new();
+    for w in 0..workers {
+        match spawn_worker(w, None, tx.clone()) {
+            Some(c) => children.push(Some(c)),
+            None => return 2,
+        }
+    }
+
     let mut last_unit: Vec<Option<(String, u64)>> = vec![None; n];
     let mut last_progress: Vec<Instant> = vec![Instant::now(); n];
-    let mut reports: Vec<Option<Report>> = (0..n).map(|_| None).collect();
-    let mut closed = vec![false; n];
+    let mut reports: Vec<Vec<Report>> = (0..n).map(|_| Vec::new()).collect();
+    let mut finished = vec![false; n];
     let mut deaths: Vec<Death> = Vec::new();
+    let mut found: Vec<Found> = Vec::new();
+    let mut respawns = 0;
     let stall = Duration::from_secs(std::env::var("SHPSIM_STALL_S").ok().and_then(|s| s.parse().ok()).unwrap_or(180));
-    while closed.iter().any(|c| !c) {
+    while finished.iter().any(|c| !c) {
         match rx.recv_timeout(Duration::from_secs(1)) {
             Ok(Msg::Unit(w, ph, u)) => {
                 last_unit[w] = Some((ph, u));
                 last_progress[w] = Instant::now();
             }
-            Ok(Msg::Report(w, r)) => reports[w] = Some(*r),
+            Ok(Msg::Found(f)) => found.push(*f),
+            Ok(Msg::Report(w, r)) => {
+                reports[w].push(*r);
+                finished[w] = true;
+            }
             Ok(Msg::Closed(w)) => {
-                closed[w] = true;
-                if reports[w].is_none() {
-                    if let Some((ph, u)) = &last_unit[w] {
-                        deaths.push(Death { phase: ph.clone(), unit: *u, how: "abort" });
-                    } else {
-                        eprintln!("harness error: worker {} died before its first unit", w);
-                        return 2;
-                    }
+                if let Some(c) = children[w].as_mut() {
+                    let _ = c.wait();
+                }
+                if finished[w] {
+                    continue;
+                }
+                // died without a report: note the unit, respawn to continue after it
+                let Some((ph, u)) = last_unit[w].clone() else {
+                    eprintln!("harness error: worker {} died before its first unit", w);
+                    return 2;
+                };
+                let how = if last_progress[w].elapsed() > stall { "hang" } else { "abort" };
+                deaths.push(Death { phase: ph.clone(), unit: u, how });
+                respawns += 1;
+                if respawns > 64 {
+                    println!("note: more than 64 worker deaths, not continuing worker {}", w);
+                    finished[w] = true;
+                    continue;
+                }
+                last_progress[w] = Instant::now();
+                match spawn_worker(w as u64, Some(&(ph, u)), tx.clone()) {
+                    Some(c) => children[w] = Some(c),
+                    None => return 2,
                 }
             }
             Err(mpsc::RecvTimeoutError::Timeout) => {
                 for w in 0..n {
-                    if !closed[w] && reports[w].is_none() && last_progress[w].elapsed() > stall {
-                        if let Some((ph, u)) = &last_unit[w] {
-                            deaths.push(Death { phase: ph.clone(), unit: *u, how: "hang" });
+                    if !finished[w] && last_progress[w].elapsed() > stall {
+                        if let Some(c) = children[w].as_mut() {
+                            let _ = c.kill();
                         }
-                        let _ = children[w].kill();
-                        reports[w] = Some(Report::default());
                     }
                 }
             }
             Err(mpsc::RecvTimeoutError::Disconnected) => break,
         }
     }
-    for c in children.iter_mut() {
+    drop(tx);
+    for c in children.iter_mut().flatten() {
         let _ = c.wait();
     }
 
     // merge
     let mut stats = Stats::default();
-    let mut found: Vec<Found> = Vec::new();
     for r in reports.into_iter().flatten() {
         stats.evaluations += r.evaluations;
         stats.steps += r.steps;
@@ -392,7 +448,11 @@ pub fn cmd_check(prop: &str, tier: Tier, seed: u64, workers: u64) -> i32 {
         found.extend(r.found);
     }
     // dead workers: pinpoint the case, materialise its scenario
-    for d in &deaths {
+    if deaths.len() > 3 {
+        println!("{} worker deaths; pinpointing the first 3", deaths.len());
+    }
+    deaths.sort_by_key(|d| (d.phase.clone(), d.unit));
+    for d in deaths.iter().take(3) {
         println!("worker died ({}) in phase {} unit {}: pinpointing", d.how, d.phase, d.unit);
         let (last, done, how) = run_pinpoint(prop, tier, seed, &d.phase, d.unit, Duration::from_secs(30));
         if done {
